@@ -111,6 +111,10 @@ def make_keymap(klepto, spec):
         return km.picklemap(serializer='pickle', **kw)
     if kind == 'dill':
         return km.picklemap(serializer='dill', **kw)
+    if kind == 'chain-str-sha1':       # a + b encodes with b, then passes the key through a
+        return km.stringmap(**kw) + km.hashmap(algorithm='sha1', **kw)
+    if kind == 'chain-md5-pickle':
+        return km.hashmap(algorithm='md5', **kw) + km.picklemap(serializer='pickle', **kw)
     if kind == 'default':
         return None
     raise ValueError(kind)
@@ -119,6 +123,14 @@ def make_keymap(klepto, spec):
 def keymap_hashable(spec):
     """does the keymap produce hashable keys for f(x, y=0)?  raw/non-flat keys contain a dict."""
     return not (spec[0] == 'raw' and not spec[1])
+
+
+SETTINGS = {
+    'dir-json': ('dir', '', dict(protocol='json')),
+    'dir-compressed': ('dir', '', dict(compression=3)),
+    'dir-proto2': ('dir', '', dict(protocol=2)),
+    'file-proto2': ('file', '.pkl', dict(protocol=2)),
+}
 
 
 class Slot(object):
@@ -194,6 +206,14 @@ class Recorder(object):
             path = os.path.join(w, 'S%s.db' % tag)
             c = A.sqltable_archive('sqlite:///%s?table=memo' % path, cached=True)
             return c, Slot('sql', c.archive, path)
+        if backend in SETTINGS:
+            # persistent archives with non-default settings (they must survive copies, pickling and re-decoration)
+            fam, ext, kw = SETTINGS[backend]
+            path = os.path.join(w, '%s%s%s' % (backend.replace('-', '_').upper(), tag, ext))
+            c = getattr(A, fam + '_archive')(path, cached=True, **kw)
+            s = Slot(fam, c.archive, path)
+            s.settings = kw
+            return c, s
         if backend == 'flaky':
             base = self.klepto._archives.dict_archive
 
@@ -242,7 +262,9 @@ class Recorder(object):
             return None
         if slot.kind == 'dictarch':
             return self.klepto.archives.cache(archive=slot.obj)
-        if slot.kind == 'file':
+        if getattr(slot, 'settings', None) is not None:
+            c = getattr(A, slot.kind + '_archive')(slot.loc, cached=True, **slot.settings)
+        elif slot.kind == 'file':
             c = A.file_archive(slot.loc, cached=True)
         elif slot.kind == 'dir':
             c = A.dir_archive(slot.loc, cached=True)
@@ -623,15 +645,26 @@ class Recorder(object):
         import dill
         box = {}
 
+        # (sqlite connections may only be used in the thread that opened them: a copy that is backed by the sqlite
+        # archive is restored by the thread that goes on to use it; every other copy by the snapshotting thread)
+        here = any(s.kind == 'sql' for s in self.slots)
+
         def work():
             try:
-                box['g'] = dill.loads(dill.dumps(self.inst[i - 1]))
+                box['blob'] = dill.dumps(self.inst[i - 1])
+                if not here:
+                    box['g'] = dill.loads(box['blob'])
             except BaseException as e:
                 box['exc'] = type(e).__name__
         t = threading.Thread(target=work)
         t.daemon = True
         t.start()
         t.join(30)
+        if here and 'blob' in box and not t.is_alive():
+            try:
+                box['g'] = dill.loads(box['blob'])
+            except BaseException as e:
+                box['exc'] = type(e).__name__
         ev = {'op': 'clone', 'i': i, 'j': j, 'inflight': True}
         if t.is_alive():
             ev['exc'] = 'Blocked'
@@ -677,6 +710,7 @@ def run_sequence(cfg, ops, workdir):
     instead of hanging the check; the sequence ends there."""
     import threading
     del stubs.LOG[:]
+    stubs.RAISE7[0] = stubs.RAISE_KINDS[cfg.get('raise7', 'StubError')]
     r = Recorder(cfg, workdir)
     icfg = {'alg': cfg['alg'], 'maxsize': cfg.get('maxsize', 'default'), 'how': cfg.get('how', 'kw'),
             'purge': cfg.get('purge')}
